@@ -193,7 +193,8 @@ def run(ctx):  # noqa: C901, PLR0912, PLR0915
                witness=[w.lineno, s.lineno, r.lineno, f.lineno])
         two = g.path_exists(r, f, normal_only=False) or g.path_exists(f, r)
         # within one loop iteration: cut at the loop header
-        hdr = [n for n in g.nodes if n.kind == 'test' and isinstance(n.stmt, ast.While)]
+        hdr = [n for n in g.nodes if n.kind == 'test' and isinstance(n.stmt, ast.While)
+               and not getattr(n.stmt, '_inline_wrapper', False)]
         two = g.path_exists(r, f, avoid=hdr) or g.path_exists(f, r, avoid=hdr)
         ctx.ob('C09.R2', 'at most one final state', not two,
                'after a delivered final notification no second final notification is reachable in the same iteration'
